@@ -107,6 +107,8 @@ class Models:
         R(r'^<(core::slice::Iter<.*>|core::iter::\w+<.*>|core::ops::Range<usize>) as core::iter::(Iterator|IntoIterator|DoubleEndedIterator)>::'
           r'(rev|enumerate|copied|cloned|take|skip|into_iter|by_ref|next)(::<.*>)?$', m_iter_op)
         R(r'^arch::all::memchr::has_zero_byte$', m_has_zero_byte)
+        # summary of the public unsafe fn is_equal_raw (proved at its own root: C18 EQ-TRUE / EQ-FALSE)
+        R(r'^arch::all::is_equal_raw$', m_is_equal_raw)
         # Fn-trait shims for fn items: call the item
         R(r' as core::ops::(Fn|FnMut|FnOnce)<.*>>::(call|call_mut|call_once) - shim', m_fn_shim)
         # misc
@@ -403,6 +405,17 @@ class Models:
     #   nz(movemask(v)) = nz(v);  nz(or(a,b)) = nz(a) or nz(b);  nz(and(a,b)) => nz(a) and nz(b)
     def assume_pred(self, I, st, atom):
         _, pos, name, arg = atom[:4]
+        if name == 'term_eq' and self.e3:
+            from . import eqg
+            eqg.on_term_eq(I, st, pos, arg[0], arg[1])
+        if name == 'rawcmp' and self.e3:
+            from . import eqg
+            rx, xo, ry, yo, n = arg
+            if pos:
+                eqg.on_equal(I, st, rx, xo, ry, yo, n)
+            else:
+                st.store.add_le(C(1) - n)          # `false` needs a differing byte inside [0, n)
+                eqg.on_differ(I, st, rx, xo, ry, yo, n)
         if name != 'nz':
             key = (name, term_key(arg, st.store))
             preds = dict(st.ghost.get('preds', {}))
@@ -488,6 +501,24 @@ def m_box_from_slice(I, fr, st, t, args, key):
     if isinstance(a, SliceV) and isinstance(x, SliceV):
         st.store.add_eq(x.n - a.n)
     return ret1(st, ret)
+
+
+def m_is_equal_raw(I, fr, st, t, args, key):
+    """`is_equal_raw(x, y, n)` called from another function: its documented contract (x and y valid
+    for reads of n bytes) is an obligation here; the result is an uninterpreted truth value whose two
+    meanings (all n bytes equal / some byte differs) are recorded by the EQ ghost when a branch assumes it"""
+    x, y, n = args
+    if not (isinstance(x, PtrV) and isinstance(y, PtrV) and isinstance(n, IntV)):
+        I.ob('READ', fr, t['loc'], 'is_equal_raw: operands tracked', False, 'pointer / length argument not tracked')
+        return ret1(st, I.havoc_call(fr, st, t, args, key))
+    for nm, p in (('x', x), ('y', y)):
+        reg = I.regions[p.r]
+        ok = st.store.entails_le(-p.off) and st.store.entails_le(p.off + n.e - V(reg.L))
+        I.ob('READ', fr, t['loc'], f'is_equal_raw: {nm} valid for n bytes', ok,
+             f"{reg.name}+({st.store.nf(p.off)}) for {st.store.nf(n.e)} bytes, len {reg.L}")
+        st.store.add_le(-p.off)
+        st.store.add_le(p.off + n.e - V(reg.L))
+    return ret1(st, BoolV(('pred', True, 'rawcmp', (x.r, st.store.nf(x.off), y.r, st.store.nf(y.off), st.store.nf(n.e)))))
 
 
 def m_opaque(I, fr, st, t, args, key):
